@@ -398,3 +398,27 @@ Fixpoint rfc_reassemble (cur : option open_block) (ws : list wire_frame) : optio
           end
       end
   end.
+
+(* an octet stream that consists of complete, acceptable frames, as the sequence of logical
+   frames it carries (field blocks reassembled, unknown frame types dropped); None when the
+   stream ends inside a frame or anything in it is rejected *)
+Fixpoint rfc_parse_all (max_frame_size : N) (frames : list (list N)) : option (list wire_frame) :=
+  match frames with
+  | [] => Some []
+  | f :: fs =>
+      match rfc_parse_frame max_frame_size f with
+      | Accept w => option_map (cons w) (rfc_parse_all max_frame_size fs)
+      | _ => None
+      end
+  end.
+
+Definition rfc_decode_stream (max_frame_size : N) (bs : list N) : option (list wire_frame) :=
+  let (frames, tail) := rfc_frames bs in
+  match tail with
+  | [] =>
+      match rfc_parse_all max_frame_size frames with
+      | Some ws => rfc_reassemble None ws
+      | None => None
+      end
+  | _ :: _ => None
+  end.
